@@ -67,6 +67,9 @@ def check(ctx):
     ctx.require(ctx.extra.get('operator_variants', {}).get('loop', 0) > 0 and ctx.extra.get('operator_variants', {}).get('lambda', 0) > 0,
                 'C12.F4: both CallbackListBase::operator() variants (lambda form and GCC-4 loop form) must be analysed: %s' % ctx.extra.get('operator_variants'))
     ctx.require_min('C12.F5', 2)
+    import os
+    from .. import witness, extract
+    witness.check_static_unit(ctx, 'C12.F4', os.path.join(extract.VERIF, 'witness', 's_select.cpp'), 'canContinueInvoking / mixin policy selection')
 
 
 def check_gate(ctx, tu, f):
@@ -95,6 +98,49 @@ def check_gate(ctx, tu, f):
                   % (f.nloc(inv), f.nloc(g)), where=f.nloc(inv))
     before = all(f.pos_dominates(f.pos(g), f.pos(x)) and f.pos(g) != f.pos(x) for x in finds + [inv])
     ctx.ob('C12.F1', f, 'the filters run before the listener list is looked up and invoked', before, where=f.nloc(g))
+    # every mixin of the policy's MixinList takes part in the chain
+    def split_targs(t):
+        out, depth, cur = [], 0, ''
+        for ch in t:
+            if ch == '<':
+                depth += 1
+            elif ch == '>':
+                depth -= 1
+            if ch == ',' and depth == 0:
+                out.append(cur.strip())
+                cur = ''
+            else:
+                cur += ch
+        if cur.strip():
+            out.append(cur.strip())
+        return out
+    gq = (f.callee(g) or {}).get('clsq', '')
+    i0 = gq.find('MixinList<')
+    nmix = None
+    if i0 >= 0:
+        depth, j = 0, i0 + len('MixinList')
+        for j2 in range(j, len(gq)):
+            if gq[j2] == '<':
+                depth += 1
+            elif gq[j2] == '>':
+                depth -= 1
+                if depth == 0:
+                    nmix = len(split_targs(gq[j + 1:j2]))
+                    break
+    if nmix is not None:
+        levels = 0
+        cur = f.callee_fns(g)
+        seen = set()
+        while cur and cur[0].id not in seen:
+            h = cur[0]
+            seen.add(h.id)
+            own = [n for n in h.calls() if 'DoMixinBeforeDispatch' in (h.callee_key(n) or '')]
+            rec = [n for n in h.calls() if (h.callee_key(n) or '') == 'ForEachMixins::forEach']
+            if own:
+                levels += 1
+            cur = h.callee_fns(rec[0]) if rec else []
+        ctx.ob('C12.F1', f, 'every mixin of the MixinList is consulted (chain length = number of mixins)', levels == nmix,
+               detail='%d mixins declared, %d consulted by the chain' % (nmix, levels), key_detail='chain length')
     # F2: same objects
     gargs = f.call_args(g)[1:]    # first argument is `this`
     iargs = f.call_args(inv)
